@@ -1,7 +1,10 @@
 """C19 — generation writes only where told, never clobbers, converges on overwrite (DESIGN §C19; explicit-state BFS)."""
 from __future__ import annotations
 
+import contextlib
 import hashlib
+import io
+import itertools
 import json
 import os
 import shutil
@@ -119,6 +122,10 @@ def commands(tier):
         cmds.append(["gen", "N", meta, True, "default", "ascii"])
     # custom templates kept in a directory of the user's, outside the output directory
     cmds.append(["gen", "A", "none", True, "default", "templates"])
+    # name overrides given as empty strings, default location
+    for meta in (("none",) if tier == "quick" else ("none", "poetry")):
+        for ow in (False, True):
+            cmds.append(["gen", "A", meta, ow, "default", "emptynames"])
     cmds += [["user", "root"], ["user", "pkg"], ["user", "modify"]]
     # directories the user made before any generation: an empty one / one that holds only dot entries at the --output-path location,
     # an empty one where the default (title-derived) location of the metadata-free flavour will be
@@ -196,6 +203,8 @@ def _docfile(name, cfgname="plain"):
     if not cfg.exists():
         if cfgname == "hooks":      # post hooks that leave a trace in their working directory (the project directory)
             cfg.write_text("post_hooks:\n  - 'echo ran > HOOK_RAN.txt'\n  - 'touch HOOK_STAMP'\n")
+        elif cfgname == "emptynames":   # overrides that are present but empty: the same as not given
+            cfg.write_text("post_hooks: []\nproject_name_override: ''\npackage_name_override: ''\n")
         else:
             cfg.write_text("post_hooks: []\n" + ("generate_all_tags: true\n" if cfgname == "alltags" else ""))
     return p, cfg
@@ -363,8 +372,63 @@ def expand(task):
             "skipped_crash": code == "crash", "steps": 1, "_new": (new_files, new_flav)}
 
 
+def lib_histories(tier):
+    """Histories of library calls generate(config=...) in which every Config descends (attr.evolve) from the first one, default
+    location: steps = (document, overwrite, working directory).  quick: depth 2; thorough: depth 3."""
+    alphabet = [[d, ow, cwd] for d in ("A", "B") for ow in (False, True) for cwd in ("work", "work2")]
+    depth = 2 if tier == "quick" else 3
+    for meta in ("none", "poetry"):
+        for n in range(1, depth + 1):
+            for seq in itertools.product(alphabet, repeat=n):
+                yield {"lib": [list(x) for x in seq], "meta": meta}
+
+
+def _lib_run(p, shared):
+    from attrs import evolve
+    sb = gen.scratch_root() / ("c19lib_shared" if shared else "c19lib_fresh")
+    restore(sb, {"work/.keep": b"", "work2/.keep": b""})
+    cwd0 = os.getcwd()
+    trace, cfg = [], None
+    try:
+        for doc, ow, cwd in p["lib"]:
+            docp, _cfgfile = _docfile(doc)
+            os.chdir(Path(sb) / cwd)
+            if cfg is None or not shared:
+                cfg = gen.mkconfig(None, p["meta"], overwrite=ow, source=docp)
+            else:
+                cfg = evolve(cfg, document_source=docp, overwrite=ow)
+            try:
+                with contextlib.redirect_stdout(io.StringIO()):
+                    errs = gen.opc.generate(config=cfg)
+                trace.append(sorted((type(e).__name__, (e.header or "")[:60]) for e in errs))
+            except Exception as exc:  # noqa: BLE001
+                trace.append([("raised", type(exc).__name__)])
+            os.chdir(cwd0)
+        return trace, read_all(sb)
+    finally:
+        os.chdir(cwd0)
+        shutil.rmtree(sb, ignore_errors=True)
+
+
+def expand_lib(p):
+    """One library history twice: Configs descending from the first one vs a Config made from scratch for every call."""
+    t1, f1 = _lib_run(p, shared=True)
+    t2, f2 = _lib_run(p, shared=False)
+    viol = []
+    key = f"lib/{p['meta']}/{len(p['lib'])}"
+    if f1 != f2:
+        diff = sorted(k for k in set(f1) | set(f2) if f1.get(k) != f2.get(k))
+        viol.append({"oracle": "config-reuse-changes-files", "site": "-", "key": key,
+                     "detail": f"with Configs evolved from the first call's Config the sandbox differs from fresh Configs per call: {diff[:4]} ({len(diff)} paths)"})
+    if t1 != t2:
+        viol.append({"oracle": "config-reuse-changes-errors", "site": "-", "key": key, "detail": f"errors per call: evolved Config {t1} vs fresh Config {t2}"})
+    return {"violations": viol, "outcome": "lib:" + ("viol" if viol else "ok"), "nontrivial": bool(f2) and len(f2) > 2, "steps": 2 * len(p["lib"])}
+
+
 def run_case(p):
     """Replay a whole history from the initial state (used by replay / confirmation)."""
+    if "lib" in p:
+        return expand_lib(p)
     files, flavours = dict(INIT), {}
     viol = []
     for cmd in p["history"]:
@@ -384,18 +448,27 @@ def drive(ctx):
                                                       or (c[1] in ("H", "I"))))]
         c1, r1, i1 = _bfs(ctx, full, 3)
         c2, r2, i2 = _bfs(ctx, core, 4)
-        info = {"states": i1["states"] + i2["states"], "transitions": i1["transitions"] + i2["transitions"], "traces": i1["traces"] + i2["traces"], "exhaustive": True,
-                "bounds": {"depth_full_command_set": 3, "commands_full": len(full), "depth_core_command_set": 4, "commands_core": len(core)},
-                "extra": {"frontier_at_bound": i1["extra"]["frontier_at_bound"] + i2["extra"]["frontier_at_bound"]}}
-        return c1 + c2, r1 + r2, info
+        c3, r3, n3 = _lib(ctx)
+        info = {"states": i1["states"] + i2["states"], "transitions": i1["transitions"] + i2["transitions"] + n3, "traces": i1["traces"] + i2["traces"] + len(c3), "exhaustive": True,
+                "bounds": {"depth_full_command_set": 3, "commands_full": len(full), "depth_core_command_set": 4, "commands_core": len(core), "depth_library_histories": 2},
+                "extra": {"frontier_at_bound": i1["extra"]["frontier_at_bound"] + i2["extra"]["frontier_at_bound"], "library_histories": len(c3)}}
+        return c1 + c2 + c3, r1 + r2 + r3, info
     c1, r1, i1 = _bfs(ctx, commands("thorough"), 4)
     core = [c for c in commands("thorough") if c[0] == "user" or (c[1] in ("A", "B", "C") and c[2] == "none" and c[4] == "default" and len(c) == 5)
             or (c[1] == "A" and c[2] == "poetry" and c[4] == "default" and len(c) == 5) or (len(c) > 5 and c[1] in ("A", "F") and c[2] == "none" and c[4] == "default")]
     c2, r2, i2 = _bfs(ctx, core, 5)
-    info = {"states": i1["states"] + i2["states"], "transitions": i1["transitions"] + i2["transitions"], "traces": i1["traces"] + i2["traces"], "exhaustive": True,
-            "bounds": {"depth_full_command_set": 4, "commands_full": i1["bounds"]["commands"], "depth_core_command_set": 5, "commands_core": len(core)},
-            "extra": {"frontier_at_bound": i1["extra"]["frontier_at_bound"] + i2["extra"]["frontier_at_bound"]}}
-    return c1 + c2, r1 + r2, info
+    c3, r3, n3 = _lib(ctx)
+    info = {"states": i1["states"] + i2["states"], "transitions": i1["transitions"] + i2["transitions"] + n3, "traces": i1["traces"] + i2["traces"] + len(c3), "exhaustive": True,
+            "bounds": {"depth_full_command_set": 4, "commands_full": i1["bounds"]["commands"], "depth_core_command_set": 5, "commands_core": len(core), "depth_library_histories": 3},
+            "extra": {"frontier_at_bound": i1["extra"]["frontier_at_bound"] + i2["extra"]["frontier_at_bound"], "library_histories": len(c3)}}
+    return c1 + c2 + c3, r1 + r2 + r3, info
+
+
+def _lib(ctx):
+    payloads = list(lib_histories(ctx.tier))
+    outs = ctx.map(payloads, fn="expand_lib")
+    cases = [{"labels": ["library"] + [f"call{i}={d}:{'overwrite' if ow else 'no-overwrite'}:{cwd}" for i, (d, ow, cwd) in enumerate(p["lib"])] + [f"meta={p['meta']}"], "payload": p} for p in payloads]
+    return cases, outs, sum(2 * len(p["lib"]) for p in payloads)
 
 
 def _bfs(ctx, cmds, depth):
